@@ -1,6 +1,6 @@
 (* C03 — evaluators for generated correspondence cases (kernel path: gen/C03_*.v).  Definitions only. *)
 From Coq Require Import QArith Qabs List Bool ZArith Arith.
-From Scenic Require Import C16.RegionAlg C16.Cases C03.Sampler.
+From Scenic Require Import C16.RegionAlg C16.Cases C03.Sampler C03.Placement.
 Import ListNotations.
 Open Scope Q_scope.
 
@@ -13,7 +13,8 @@ Inductive scase :=
 | SRect (cx cy co si hw hl u1 u2 x y tol : Q)
 | SDisc (c : pt) (R u r ct st : Q) (p : pt) (tol : Q)
 | SSector (c : pt) (R u r ct st half va : Q) (p : pt) (tol : Q)
-| SSeg (cum : list Q) (ux : Q) (idx : nat) (x1 y1 x2 y2 w x y tol : Q).
+| SSeg (cum : list Q) (ux : Q) (idx : nat) (x1 y1 x2 y2 w x y tol : Q)
+| SPlace (centre : bool) (cc s : pt) (M : mat) (t v p : pt) (tol : Q).
 
 Definition eval_scase (c : scase) : bool :=
   match c with
@@ -33,6 +34,10 @@ Definition eval_scase (c : scase) : bool :=
   | SSeg cum ux idx x1 y1 x2 y2 w x y tol =>
       let '(mx, my) := seg_sample x1 y1 x2 y2 w in
       Nat.eqb (bisect cum ux) idx && close mx x tol && close my y tol
+  (* a vertex of the placed mesh is centre -> scale -> rotate -> translate of the input vertex, and the oracle's frame change
+     takes it back *)
+  | SPlace centre cc s M t v p tol =>
+      close_pt (place centre cc s M t v) p tol && close_pt (unplace centre cc s M t (place centre cc s M t v)) v tol
   end.
 
 Fixpoint sfailing (i : N) (cs : list scase) : list N :=
